@@ -382,6 +382,14 @@ def rule_roundtrip(ctx) -> None:
         ("CmdReset", [{}]),
     ]
     roundtrip.check_classes(ctx, "C05.cmd-roundtrip", CMD, table, floor=14)
+    # a fuse programming command counts its data in 32-bit words: data that is not whole words is refused by the constructor (otherwise
+    # export writes bytes that the word count in the header does not cover and parse returns different data)
+    rtf = roundtrip.RoundTrip(ctx, CMD, "CmdProgFuses")
+    built, data, parsed = rtf.run({"address": 0x10, "data": bytes(range(1, 6))})
+    refused = isinstance(built, tuple) and built and built[0] == "raise"
+    ctx.chk.decide(refused or (isinstance(built, dict) and built == parsed), "C05.fuse-words", f"{CMD}::CmdProgFuses", "5 bytes of fuse data are refused (or round-trip)",
+                   f"CmdProgFuses(0x10, 5 bytes) is accepted, exports {bytes(data).hex() if isinstance(data, (bytes, bytearray)) else data} and parses back to data {parsed.get('data') if isinstance(parsed, dict) else parsed}",
+                   "len(data) % 4 == 0 or an error", A.loc(CMD, rtf.cls.node))
     # the container header (block size and certificate offset are re-derived by parse from the hash type and compared with the file)
     from ..engines import ordereval as _oe
     H = ctx.enum_model(ctx.cls("spsdk/crypto/hash.py", "EnumHashAlgorithm"))
